@@ -268,6 +268,30 @@ def check(ix, rep):
     from sa.rules import units
     nc = units.check_interpreter_ownership(ix, rep)
     rep.floor('interpreter ownership obligations of the specification classes', nc, 4)
+    # ---- the declared default of a variable is a *new* object every time it is asked for: reset() (inputs) and the parser hand these objects out,
+    #      update() writes results into the output object -- a default that is kept and handed out again carries the last pre-reset result
+    absast = ix.find_class('rtamt.syntax.ast.parser.abstract_ast_parser', 'AbstractAst')
+    cv = absast.methods.get('create_var_from_name') if absast is not None else None
+    if cv is None:
+        raise AnalysisError('AbstractAst.create_var_from_name vanished')
+    rep.analysed(cv)
+    rets = [r.value for r in ast.walk(cv.node) if isinstance(r, ast.Return) and r.value is not None]
+    bad = None
+    for r in rets:
+        names = [r.id] if isinstance(r, ast.Name) else []
+        exprs = [r] if not names else [st.value for st in ast.walk(cv.node) if isinstance(st, ast.Assign) and any(isinstance(t, ast.Name) and t.id == names[0] for t in st.targets)]
+        for e in exprs:
+            if isinstance(e, ast.Constant) and e.value is None:
+                continue
+            if isinstance(e, ast.Call) and not (isinstance(e.func, ast.Attribute) and e.func.attr in ('get', 'setdefault', 'pop')):
+                continue        # a constructor call: float(), class_()
+            bad = e
+    if bad is None:
+        rep.ok('R-STATE', cv.module.rel, cv.qual, 'fresh-default', 'every returned default is constructed by the call that returns it', cv.node.lineno)
+    else:
+        rep.fail('R-STATE', cv.module.rel, cv.qual, 'fresh-default', 'create_var_from_name() can return `%s`, an object it did not construct in this call: the default of a type is shared by '
+                 'all variables of that type and by reset() -- the output object that update() writes the robustness into is then also the "default" a reset input starts from'
+                 % ast.unparse(bad)[:60], bad.lineno)
     # ---- (e) what reset() re-derives from must not have been altered in between -------------------------------
     if not astpure.self_test():
         raise AnalysisError('R-ASTPURE self-test: the positive example is not recognised')
